@@ -8,10 +8,10 @@ Local Open Scope list_scope.
 
 Definition ex_k_target : kust :=
   mkKust None [] [] [] [] ["dep.yaml"; "../base"]
-         [mkGen "" ["e.env"] ["k=data.txt"]] [] ["sub/../p.yaml"] [] [] [] [] [] [].
+         [mkGen "" ["e.env"] ["k=data.txt"]] [] [] [] None ["sub/../p.yaml"] [] [] [] [] [] [].
 
 Definition ex_k_base : kust :=
-  mkKust None [] [] [] [] ["cm.yaml"] [] [] [] [] [] [] [] [] [].
+  mkKust None [] [] [] [] ["cm.yaml"] [] [] [] [] None [] [] [] [] [] [] [].
 
 Definition ex_fs : fs :=
   [ (["s"], EDir);
@@ -185,4 +185,86 @@ Proof.
   apply Forall_forall. intros e Hin. apply quiet_evb_spec.
   assert (F : forallb quiet_evb (w_trace (fst (ex_run (Some 2)))) = true) by (vm_compute; reflexivity).
   rewrite forallb_forall in F. auto.
+Qed.
+
+(* ------------------------------------------------------------------ helm: local chart homes *)
+
+(* corpus/C18/helm-chart-home.json *)
+Definition ex2_kust : kust :=
+  mkKust None [] [] [] [] ["cm.yaml"] [] [] [] [("hv.yaml", [])] None [] [] [] [] [] [] [].
+
+Definition ex2_fs : fs :=
+  [ (["s"], EDir); (["s"; "t"], EDir);
+    (["s"; "t"; "charts"], EDir); (["s"; "t"; "charts"; "app"], EDir);
+    (["s"; "t"; "charts"; "app"; "Chart.yaml"], EFile (CRaw 1));
+    (["s"; "t"; "charts"; "app"; "crds"], EDir);
+    (["s"; "t"; "charts"; "app"; "templates"], EDir);
+    (["s"; "t"; "charts"; "app"; "templates"; "cm.yaml"], EFile (CRaw 2));
+    (["s"; "t"; "charts"; "app"; "templates"; "sub"], EDir);
+    (["s"; "t"; "charts"; "app"; "templates"; "sub"; "extra.yaml"], EFile (CRaw 3));
+    (["s"; "t"; "charts"; "app"; "values.yaml"], EFile (CRaw 4));
+    (["s"; "t"; "cm.yaml"], EFile (CRaw 5));
+    (["s"; "t"; "hv.yaml"], EFile (CRaw 6));
+    (["s"; "t"; "kustomization.yaml"], EFile (CRaw 7)) ].
+
+Definition ex2_orc : oracles :=
+  mkOrc (fun id => if N.eqb id 7 then Some ex2_kust else None)
+        (fun id => N.eqb id 2 || N.eqb id 3 || N.eqb id 5) (fun _ => []) (fun _ => false).
+
+Definition ex2_run (fault : option nat) : world * outcome string :=
+  run_localize ex2_orc first_chooser 8 "/s/t" "/s" "/new" fault ex2_fs.
+
+(* the fault-free run mirrors the whole chart home: 8 files written, the chart's files among them *)
+Example ex2_success :
+  snd (ex2_run None) = OOk "/new" /\
+  lookup ["new"; "t"; "charts"; "app"; "templates"; "sub"; "extra.yaml"] (w_fs (fst (ex2_run None)))
+    = Some (EFile (CRaw 3)) /\
+  lookup ["new"; "t"; "charts"; "app"; "crds"] (w_fs (fst (ex2_run None))) = Some EDir.
+Proof. vm_compute. repeat split; reflexivity. Qed.
+
+(* (e) ConfirmDir fails inside copyChartHome: log.Panicf, the partial copy stays *)
+Lemma leftover_5 :
+  fs_wf ex2_fs /\
+  exists_path ex2_fs ex_nd = false /\
+  snd (ex2_run (Some 23)) = OExn XPanic /\
+  (forall e, In e (w_trace (fst (ex2_run (Some 23)))) -> ev_op e = ORemoveAll -> ev_ok e = true) /\
+  exists_path (w_fs (fst (ex2_run (Some 23)))) ex_nd = true.
+Proof.
+  split; [apply fs_wfb_spec; vm_compute; reflexivity|]. split; [vm_compute; reflexivity|].
+  split; [vm_compute; reflexivity|]. split; [apply removes_okb_spec; vm_compute; reflexivity|].
+  vm_compute; reflexivity.
+Qed.
+
+(* corpus/C18/helm-values-inside-home.json: the values file lives inside the chart home *)
+Definition ex3_kust : kust :=
+  mkKust None [] [] [] [] [] [] [] [] [("charts/app/values.yaml", [])] None [] [] [] [] [] [] [].
+
+Definition ex3_fs : fs :=
+  [ (["s"], EDir); (["s"; "t"], EDir);
+    (["s"; "t"; "charts"], EDir); (["s"; "t"; "charts"; "app"], EDir);
+    (["s"; "t"; "charts"; "app"; "Chart.yaml"], EFile (CRaw 1));
+    (["s"; "t"; "charts"; "app"; "templates"], EDir);
+    (["s"; "t"; "charts"; "app"; "templates"; "cm.yaml"], EFile (CRaw 2));
+    (["s"; "t"; "charts"; "app"; "templates"; "sub"], EDir);
+    (["s"; "t"; "charts"; "app"; "templates"; "sub"; "extra.yaml"], EFile (CRaw 3));
+    (["s"; "t"; "charts"; "app"; "values.yaml"], EFile (CRaw 4));
+    (["s"; "t"; "kustomization.yaml"], EFile (CRaw 5)) ].
+
+Definition ex3_orc : oracles :=
+  mkOrc (fun id => if N.eqb id 5 then Some ex3_kust else None)
+        (fun id => N.eqb id 2 || N.eqb id 3) (fun _ => []) (fun _ => false).
+
+Definition ex3_run : world * outcome string :=
+  run_localize ex3_orc first_chooser 8 "/s/t" "/s" "/new" None ex3_fs.
+
+(* WITHOUT any fault: localize reports success, yet the chart home was not copied — the values file,
+   localized first, created newDir/t/charts, and copyChartHome skips a destination that exists. *)
+Lemma incomplete_copy_witness :
+  fs_wf ex3_fs /\
+  snd ex3_run = OOk "/new" /\
+  lookup ["s"; "t"; "charts"; "app"; "Chart.yaml"] ex3_fs = Some (EFile (CRaw 1)) /\
+  lookup ["new"; "t"; "charts"; "app"; "values.yaml"] (w_fs (fst ex3_run)) = Some (EFile (CRaw 4)) /\
+  lookup ["new"; "t"; "charts"; "app"; "Chart.yaml"] (w_fs (fst ex3_run)) = None.
+Proof.
+  split; [apply fs_wfb_spec; vm_compute; reflexivity|]. vm_compute. repeat split; reflexivity.
 Qed.
